@@ -33,7 +33,7 @@ func TestC01Deadline(t *testing.T) {
 		}
 		w, err := stack.Build(spec, 2, 0)
 		if err != nil {
-			t.Fatalf("harness: %v: %v", spec, err)
+			t.Fatalf("%s", ev.Tag(fmt.Sprintf("harness: %v: %v", spec, err)))
 		}
 		defer w.Close()
 		a, b := w.Nodes[0], w.Nodes[1]
